@@ -187,7 +187,7 @@ def judge_channels(ctx, case):
 
 def cli_run(args, cwd):
     env = dict(os.environ, PYTHONPATH=os.path.realpath(REPO), PYTHONDONTWRITEBYTECODE="1")
-    return subprocess.run([sys.executable, "-m", "btc_hd_wallet"] + args, cwd=cwd, env=env, capture_output=True, text=True, timeout=300)
+    return subprocess.run([sys.executable] + (["-O"] if sys.flags.optimize else []) + ["-m", "btc_hd_wallet"] + args, cwd=cwd, env=env, capture_output=True, text=True, timeout=300)
 
 
 def judge_cli(ctx, case):
@@ -269,7 +269,7 @@ def run(ctx):
         j = j0 * ctx.nshards + ctx.shard          # all four (network, target) combinations occur across shards
         s = rnd.choice([0, 3, H - 2])
         judge_cli(ctx, {"entropy": gen.rbytes(rnd, rnd.choice([16, 32])), "passphrase": rnd.choice(["", "0OIl-marker-passphrase"]),
-                        "testnet": bool(j & 1), "account": rnd.choice([0, 5, 9]), "start": s, "end": s + rnd.randrange(0, 3),
+                        "testnet": bool(j & 1), "account": rnd.choice([0, 5, 9, 44, 49, 84, 83696968]), "start": s, "end": s + rnd.randrange(0, 3),
                         "to_file": bool((j >> 1) & 1),
                         "source": ["from-mnemonic", "from-bip39-seed", "from-master-xprv", "from-entropy-hex"][(j >> 2) % 4],
                         "purpose": rnd.choice([44, 49, 84])})
